@@ -35,7 +35,7 @@ class Graph:
         for s in self.segs:
             tags = ["LN:i:%d" % len(s["seq"]), "SN:Z:%s" % s["SN"], "SO:i:%d" % s["SO"], "SR:i:%d" % s["SR"]]
             if bo and "BO" in s:
-                tags += ["BO:i:%d" % s["BO"], "NO:i:%d" % s["NO"]]
+                tags += ["BO:i:%s" % s.get("BO_txt", "%d" % s["BO"]), "NO:i:%s" % s.get("NO_txt", "%d" % s["NO"])]
             tags += s.get("extra", [])
             S.append("S\t%s\t%s\t%s" % (s["id"], s["seq"] if with_seq else "*", "\t".join(tags)))
         L = []
@@ -59,6 +59,13 @@ class Graph:
             adj[(a, da)].add((b, db))
             adj[(b, fl[db])].add((a, fl[da]))
         return adj
+
+
+def noncanonical_int(rng, v):
+    """another valid spelling of the integer v (SAM type i: [-+]?[0-9]+)"""
+    if v < 0:
+        return rng.choice(["-0%d" % -v, "-00%d" % -v, "%d" % v])
+    return rng.choice(["+%d" % v, "0%d" % v, "00%d" % v, "+0%d" % v] + (["-0"] if v == 0 else []))
 
 
 def rgfa(rng, max_ref=2, max_ref_segs=6, max_hap=3, maxlen=6, extra_links=True, ids="s"):
